@@ -157,7 +157,7 @@ def main(argv=None):
 
   if a.replay:
     with open(a.replay) as f: rp = json.load(f)
-    if rp["harness"].startswith("crosshair:") and hasattr(mod, "replay_extra"):
+    if rp["harness"].startswith(("crosshair:", "fp:")) and hasattr(mod, "replay_extra"):
       bad = mod.replay_extra(rp)
       print("replay %s: %s" % (a.replay, "reproduced" if bad else "did not reproduce"))
       if bad:
